@@ -58,7 +58,8 @@ var propInfo = map[string]struct {
 		"Row mode, proved on the real code. (1) The evaluator computes the documented meaning of the operators from the values of their operands: BinaryOpExpr.Execute, for every operator code, operand values and pair - `=`/`!=` (equal bytes for texts, equal numbers for integers, equal truth values), `^=` (prefix), `&`/`|` and their keyword forms (Boolean, left to right, the right operand not needed when the left decides), `> >= < <=` (byte-wise on texts when the left operand's static type is text, numeric otherwise: integers exactly, anything involving a float as floats), `+ - * /` (integers stay integers with truncating division, any float operand makes it a float operation, division by zero is an error), `!`; literals and key / value evaluate to themselves; each with its exact definedness condition (when it returns an error). (2) The scans return exactly the filtered pairs in cursor order: FullScan / PrefixScan / RangeScan / MultiGet Next return the next pair of the cursor (or key list) on which the filter evaluates to true, every pair skipped before it fails the filter (ghost index), the end is reported only when the cursor (region) is exhausted, and Seek / prefix / range bounds lose no key of the region (byte-string order axioms). (3) Filter returns exactly `the filter expression evaluates to the Boolean true`.",
 		[]string{
 			"BETWEEN and IN are covered in row mode: execStringBetween / execNumberBetween compute `lo <= x && x <= hi` (bytes / integers) with exact definedness (equal bounds accepted: D26 repaired; bounds in the wrong order are refused), execStringIn / execNumberIn over a literal list compute `some element equals x` (bounded existential, loop invariant `no match among the first n`), and both are part of the documented-meaning predicate docBin that BinaryOpExpr.Execute is proved against",
-			"NOT covered: regular-expression match (thin assumed contract), IN over a function-valued list and float bounds of BETWEEN (frame and kinds only), scalar functions and field access (C10), string concatenation's value, the batch-mode twins (C03), that the composition scan -> projection -> caller yields each pair once (on paper from the per-call contracts and the cursor axioms)",
+			"`~=` is covered relative to the standard library: regexp.Compile succeeds exactly for the patterns reOk names and Match is the relation reMatch of pattern and text (T-STD); the row form and the vector form (with its per-chunk cache of compiled patterns: map invariant) are proved against it; text concatenation yields the concatenated bytes",
+			"NOT covered: IN over a function-valued list (proved total for the list kinds functions return: D27 repaired; element values not modelled), float bounds of BETWEEN (kinds only), scalar functions and field access (C10), string concatenation's value, the batch-mode twins (C03), that the composition scan -> projection -> caller yields each pair once (on paper from the per-call contracts and the cursor axioms)",
 			"batch mode of the scans is covered: FullScanPlan / PrefixScanPlan / RangeScanPlan .Batch return exactly the filter-passing pairs of the cursor segment they consume, in cursor order (rows, gaps, tail, end clauses over the positions recorded in chooseIdxes); MultiGetPlan.Batch returns only stored, listed, passing pairs with their stored values and reads every listed key before a short batch - that it returns every such pair is NOT stated (it needs an existential over the result that the solvers do not carry through the three loops)",
 			"A-EVAL: the outcome of evaluating an expression on a pair is a function of the expression and the pair; for operator nodes the interface clauses `evalok` / `evalv` name that outcome (definitional), the proved clauses relate it to the operands' outcomes",
 			"A-STORE: a cursor iterates a snapshot in strictly ascending key order, Seek positions at the first key >= its argument",
@@ -68,11 +69,11 @@ var propInfo = map[string]struct {
 	"C03": {"proof",
 		"Row / batch twins, each proved against the same meaning as its row form. (1) Expressions: the interface contract of ExecuteBatch says that a batch that completes has evaluated every row and element i of the result is the value of the expression on pair i; proved for the literal, key / value and ! nodes and, through the documented-meaning predicate doc_bin that the row evaluator was proved to compute (C01), for the vector forms of = != ^= & | > >= < <= + - * / (execEqualBatch, execPrefixMatchBatch, execAndOrBatch, execMathBatch, execNumberCompareBatch, execStringCompareBatch and the dispatcher) with loop invariants over the in-place combination of the operand columns. (2) The filter on a chunk gives exactly the row filter's verdicts. (3) Function calls accept the same argument counts in both forms (D7 repaired). (4) The four batch scans keep, for every pair they return, its position within everything filtered in the call, in strictly ascending order (what AdjustChunkCache needs to re-index the chunk caches; D8 repaired in MultiGetPlan.Batch). LimitPlan / FinalLimitPlan Batch vs Next are C08's contracts (same ghost sequence).",
 		[]string{
-			"BETWEEN in batch mode (execBetweenBatch) is proved row by row against the same meaning and connected to the row form through docBin for text operands (typo in its upper-bound type test repaired); the dispatcher's `twin` clause is now proved without the definitional interface clause in scope (a vacuity hole of `ifaceassumed`, closed; canary `(*sq).area`)",
+			"BETWEEN in batch mode (execBetweenBatch) is proved row by row against the same meaning and connected to the row form through docBin for text operands (typo in its upper-bound type test repaired); IN over a literal list of texts (execInBatch, three nested loops), `~=` (execRegexpMatchBatch) and text concatenation (execStringConcateBatch) are proved row by row against the same meanings; the dispatcher's `twin` clause is now proved without the definitional interface clause in scope (a vacuity hole of `ifaceassumed`, closed; canary `(*sq).area`)",
 			"batch scans: the three cursor scans return exactly the filter-passing pairs of the cursor segment they consume, in order, and a short batch means the region is exhausted - the same sequence the row forms produce call by call (C01 clauses found / skipped / end); MultiGetPlan.Batch: soundness and progress only (see C01)",
 			"vector functions that evaluate row by row (join, int_list, float_list, functions without a vector body) are proved to call the row form without the shared per-row cache (D22 repaired) and int_list / float_list to produce the row form's lists",
 			"row-mode projection shows every documented value kind, lists included (D24 repaired); FieldReferenceExpr.ExecuteBatch returns a slice of its own (callers overwrite operand columns in place) and, with the cache off, the alias's values; vector forms of the scalar functions: see C10",
-			"NOT covered: projection / order / aggregate-rendering batch forms, IN / BETWEEN / regexp / string concatenation (thin assumed contracts), the chunk caches (FieldReferenceExpr.ExecuteBatch, AdjustChunkCache: assumed thin contract; D21 repaired but not yet pinned by an obligation)",
+			"NOT covered: projection / order / aggregate-rendering batch forms, the chunk caches (FieldReferenceExpr.ExecuteBatch, AdjustChunkCache: assumed thin contract; D21 repaired but not yet pinned by an obligation)",
 			"the vector form of & and | evaluates both operands on every row (no short cut): it can fail where the row form succeeds; the property only demands the converse, which is what is proved",
 			"doc_bin / doc_not restate, through the definitional interface clauses, what BinaryOpExpr.Execute / NotExpr.Execute were proved to compute (same predicates docBin / docNot in both places)",
 			"the registered function bodies are called through function values with assumed frame-only contracts",
